@@ -381,7 +381,8 @@ class _VersionIndependentUnmarshaller:
         """
         # FIXME: check
         strsize = unpack("<i", self.fp.read(4))[0]
-        interned = compat_str(self.fp.read(strsize))
+        # marshal reads the bytes of the "ASCII" forms as Latin-1 text.
+        interned = self.fp.read(strsize).decode("latin-1")
         self.internStrings.append(interned)
         return self.r_ref(interned, save_ref)
 
@@ -392,20 +393,19 @@ class _VersionIndependentUnmarshaller:
         bytes.
         """
         strsize = unpack("<i", self.fp.read(4))[0]
-        s = self.fp.read(strsize)
-        s = compat_str(s)
+        s = self.fp.read(strsize).decode("latin-1")
         return self.r_ref(s, save_ref)
 
     # Since Python 3.4
     def t_short_ASCII(self, save_ref, bytes_for_s=False):
         strsize = unpack("B", self.fp.read(1))[0]
-        return self.r_ref(compat_str(self.fp.read(strsize)), save_ref)
+        return self.r_ref(self.fp.read(strsize).decode("latin-1"), save_ref)
 
     # Since Python 3.4
     def t_short_ASCII_interned(self, save_ref, bytes_for_s=False):
         # FIXME: check
         strsize = unpack("B", self.fp.read(1))[0]
-        interned = compat_str(self.fp.read(strsize))
+        interned = self.fp.read(strsize).decode("latin-1")
         self.internStrings.append(interned)
         return self.r_ref(interned, save_ref)
 
